@@ -68,7 +68,7 @@ class ScriptedListener(plumpy.ProcessListener):
         self.counts[name] = n
         self.log.append((name,) + tuple(args))
         for ev, nth, op in self.scripts:
-            if ev == name and nth == n:
+            if ev == name and nth == n and op[0] != 'oneshot':
                 self.world.logged_call(proc, op[0], op[1:], origin=f'listener:{name}')
 
     def on_process_running(self, process: Any) -> None:
@@ -94,6 +94,45 @@ class ScriptedListener(plumpy.ProcessListener):
 
     def on_process_killed(self, process: Any, msg: Any) -> None:
         self._event('killed', process, repr(msg))
+
+
+class OneShot(plumpy.ProcessListener):
+    """A listener that unsubscribes itself from inside its n-th ``event`` notification (script op ``('oneshot',)``); it is
+    registered *before* the recording listener, so a notification loop that is disturbed by the removal skips that one."""
+
+    def __init__(self, event: str, nth: int) -> None:
+        super().__init__()
+        self.event, self.nth, self.seen = event, nth, 0
+
+    def _event(self, name: str, proc: Any) -> None:
+        if name == self.event:
+            self.seen += 1
+            if self.seen == self.nth:
+                proc.remove_process_listener(self)
+
+    def on_process_running(self, process: Any) -> None:
+        self._event('running', process)
+
+    def on_process_waiting(self, process: Any) -> None:
+        self._event('waiting', process)
+
+    def on_process_paused(self, process: Any) -> None:
+        self._event('paused', process)
+
+    def on_process_played(self, process: Any) -> None:
+        self._event('played', process)
+
+    def on_output_emitted(self, process: Any, output_port: str, value: Any, dynamic: bool) -> None:
+        self._event('output_emitted', process)
+
+    def on_process_finished(self, process: Any, outputs: Any) -> None:
+        self._event('finished', process)
+
+    def on_process_excepted(self, process: Any, reason: str) -> None:
+        self._event('excepted', process)
+
+    def on_process_killed(self, process: Any, msg: Any) -> None:
+        self._event('killed', process)
 
 
 def fut_status(obj: Any) -> Any:
@@ -375,6 +414,9 @@ def make_runner(cfg_for: Callable[[Any], Config], oracle_factory: Callable[[Any]
             try:
                 proc = cls(pid='p0', loop=loop, **world.ctor_kwargs())
                 world.listener = ScriptedListener(world, world.script)
+                for ev, nth, op in world.listener.scripts:
+                    if op[0] == 'oneshot':
+                        proc.add_process_listener(OneShot(ev, nth))
                 proc.add_process_listener(world.listener)
                 proc.add_process_listener(world.listener)  # registering a listener is idempotent
                 proc.add_cleanup(lambda: setattr(world, 'cleanups', world.cleanups + 1))
